@@ -177,7 +177,7 @@ theorem parseHelloScan_render (L : Layout) (tail : Bytes) (hL : L.ok = true)
 /-- a prefixed hello with two capabilities (one with a query string) and a session-id is in the
 grammar -/
 def sampleLayout : Layout :=
-  { decl := some [120,109,108,63,62], pfx := [110,99], attrs := [32,120,61,34,121,34],
+  { pre := [77,79,84,68,10], decl := some [120,109,108,63,62], pfx := [110,99], attrs := [32,120,61,34,121,34],
     ws0 := [10], ws1 := [10,32], ws2 := [], ws3 := [9], ws4 := [10],
     caps := [(Gen.Netconf.v1Dot1Cap, [10]), ([117,58,120,63,97,61,98,38,99], [])],
     sid := some [52,50] }
@@ -589,5 +589,45 @@ hello without session-id — exactly the model's `session_id_kept_when_absent` -
 theorem processCaps_sessionID_after_early_return :
     "sessionID" ∈ Gen.C09State.procCapsTopLevelAssigns ∧
     "sessionID" ∉ Gen.C09State.procCapsAssignsBeforeSuccessReturn := by decide
+
+/-! ## further ways into `Open`: in-channel authentication, a failing write of the client hello -/
+
+/-- **Open through in-channel authentication** (system ssh transport, or any transport that logs
+in through the channel): whatever banner preceded the password prompt, for every hello of the
+grammar (incl. banner / MOTD text after the login and before the hello), every trailing text and
+every segmentation of what arrives after the password, under the same two side conditions, the
+login loop hands the hello over as one chunk and `Open` is the table's outcome with exactly the
+server's capabilities and session-id. -/
+theorem open_negotiates_after_inchannel_auth (delimP : Bytes → Bool) (depth : Nat) (ret : Bytes)
+    (p : Pref) (L : Layout) (suffix : Bytes) (chunks : List Bytes)
+    (hdelim : ∀ s, delimP s = isInfix Gen.Netconf.v1Dot0Delim s)
+    (hL : L.ok = true) (hsuf : noLT suffix = true)
+    (hchunks : chunks.flatten = render L ++ Gen.Netconf.v1Dot0Delim ++ suffix)
+    (hearly : delimFirstAtEnd Gen.Netconf.v1Dot0Delim (render L) = true)
+    (hwin : windowOK Gen.Netconf.v1Dot0Delim depth (render L) suffix = true) :
+    ∃ q, openSessionAuth (parseHelloScan true) delimP depth ret p.bytes chunks =
+      match sidValue L.sid,
+        specVersion (hasCap (L.caps.map Prod.fst) Gen.Netconf.v1Dot0Cap)
+          (hasCap (L.caps.map Prod.fst) Gen.Netconf.v1Dot1Cap) p with
+      | some n, some v => .ok { ver := v, caps := L.caps.map Prod.fst, sid := n,
+                                sent := clientHello v ++ ret, queue := q }
+      | _, _ => .err .netconf := by
+  obtain ⟨q, hq⟩ := openSessionAuth_render true delimP depth ret p.bytes L suffix chunks hdelim hL
+    (by simp) hsuf hchunks hearly hwin
+  refine ⟨q, ?_⟩
+  rw [hq, specOpen, version_table]
+  cases sidValue L.sid <;> simp only
+  split <;> simp_all
+
+/-- a failing write of the client hello never yields an open session: a negotiation that had
+succeeded becomes a transport error, a failed one keeps its own error -/
+theorem open_write_failure (r : Res) :
+    (∀ o, withWriteFailure true r ≠ .ok o) ∧
+    ((∃ o, r = .ok o) → withWriteFailure true r = .err .transport) ∧
+    (∀ e, r = .err e → withWriteFailure true r = .err e) ∧
+    withWriteFailure false r = r := by
+  cases r with
+  | err e => cases e <;> simp [withWriteFailure]
+  | ok o => simp [withWriteFailure]
 
 end Scrapli.Netconf.C09
